@@ -118,6 +118,9 @@ class CParser:
         return Coord(file=self.clex.filename, line=lineno, column=column)
 
     def _parse_error(self, msg: str, coord: Coord | str | None) -> NoReturn:
+        if coord is None:
+            # no token to point at: name at least the file
+            coord = self.clex.filename
         raise ParseError(f"{coord}: {msg}")
 
     def _push_scope(self) -> None:
